@@ -16,6 +16,10 @@ Undef  == [t |-> "undef"]
 Null   == [t |-> "null"]
 Err    == [t |-> "err"]      \* the language gives no value: the render must fail
 Unspec == [t |-> "unspec"]   \* outside the model's domain: no claim
+\* the language gives the expression no value, but the property does not name the
+\* case among those that must be an error: an implementation may fail or treat
+\* it as missing; what it may NOT do is produce some other text
+NoVal  == [t |-> "noval"]
 B(b)   == [t |-> "bool", v |-> b]
 I(n)   == [t |-> "int", v |-> n]
 S(s)   == [t |-> "str", v |-> s]
@@ -27,7 +31,7 @@ M(f)   == [t |-> "map", v |-> f]           \* f : [set of strings -> Val]
 \* equality and concatenates them
 Big(s) == [t |-> "bigint", v |-> s]
 
-IsBad(v) == v.t = "err" \/ v.t = "unspec"
+IsBad(v) == v.t = "err" \/ v.t = "unspec" \/ v.t = "noval"
 
 Abs(n) == IF n < 0 THEN -n ELSE n
 Max2(a, b) == IF a > b THEN a ELSE b
